@@ -110,7 +110,21 @@ func c18BatchSizes(n int, limit int64) []int {
 	return sizes
 }
 
-func c18Perms(n int) [][]int {
+func c18Perms(n int, thorough bool) [][]int {
+	if thorough && n == 4 {
+		var out [][]int
+
+		for _, p := range c18Perms(3, false) {
+			for at := 0; at <= 3; at++ {
+				q := append(append(append([]int(nil), p[:at]...), 3), p[at:]...)
+				out = append(out, q)
+			}
+		}
+
+		return out
+	}
+
+
 	id := make([]int, n)
 	rev := make([]int, n)
 
@@ -168,7 +182,7 @@ func c18Enumerate(thorough bool, shard, nshards int, f func(c c18Case) bool) {
 					continue
 				}
 
-				if !c18EnumerateConfig(local, last, limit, nheights, shifted, f) {
+				if !c18EnumerateConfig(local, last, limit, nheights, shifted, thorough, f) {
 					return
 				}
 			}
@@ -176,7 +190,7 @@ func c18Enumerate(thorough bool, shard, nshards int, f func(c c18Case) bool) {
 	}
 }
 
-func c18EnumerateConfig(local, last int, limit int64, nheights int, shifted bool, f func(c c18Case) bool) bool {
+func c18EnumerateConfig(local, last int, limit int64, nheights int, shifted, thorough bool, f func(c c18Case) bool) bool {
 	type pos struct {
 		name string
 		alts []string
@@ -215,7 +229,7 @@ func c18EnumerateConfig(local, last int, limit int64, nheights int, shifted bool
 	permsets := make([][][]int, len(sizes))
 
 	for i := range sizes {
-		permsets[i] = c18Perms(sizes[i])
+		permsets[i] = c18Perms(sizes[i], thorough)
 	}
 
 	for _, devs := range devsets {
@@ -781,9 +795,10 @@ func c18Child(t *testing.T) {
 		_ = w.Flush()
 	}
 
-	thorough := os.Getenv("VERIF_TIER") == "thorough"
 	skip, _ := strconv.Atoi(os.Getenv("VERIF_C18_SKIP"))
 	only := os.Getenv("VERIF_C18_ONLY")
+	// replays run in the quick tier: search the thorough space for the recorded id
+	thorough := os.Getenv("VERIF_TIER") == "thorough" || only != ""
 	deadline, _ := strconv.ParseInt(os.Getenv("VERIF_C18_DEADLINE"), 10, 64)
 
 	shard, nshards := 0, 1
@@ -897,7 +912,7 @@ func TestVerifC18(t *testing.T) {
 		"0, 1 and 2 deviations at every position (last proof: foreign/not updated/error; candidate state: error; each requested height: " +
 		"not found, error, same height of a foreign chain, proof of h+1, proof of h-1, proof of height 0 below the local state" +
 		", same suffrage height from a chain whose blocks are 10 higher); every combination of per-batch arrival orders " +
-		"(all permutations for batches <= 3, identity/reverse/two rotations above); non-trivial = at least one deviation")
+		"(all permutations for batches <= 3 (quick) / <= 4 (thorough), identity/reverse/two rotations above); non-trivial = at least one deviation")
 	r.Assume("arrival order in prove() forced by parking the fetches; completion of a job observed through runtime.NumGoroutine")
 	r.Assume("cases run in a child process; a case that kills the child is a panic of the real code, its trace is the witness")
 	r.Set("suffrage_heights", vlib.Pick(r, "0..4", "0..5"))
